@@ -2,7 +2,9 @@ package c14
 
 import (
 	"crypto/sha256"
+	"encoding/asn1"
 	"fmt"
+	"math/big"
 	"strconv"
 	"strings"
 	"sync"
@@ -36,10 +38,20 @@ func h32(s string) []byte {
 //	Vi:empty      Vi's address and key with empty signature bytes
 //	Vi:key=Vj     address Vi, public key and (valid) signature of Vj
 //	Vi:key=X      address Vi, public key and (valid) signature of non-member X
+//	Vi~r          the entry Vi RE-ENCODED: the same member, the same key, the
+//	              same (r,s) signature values, other bytes in a field that is not
+//	              the identity (r = name of a re-encoding, see reencodings): the
+//	              public-key JSON text spelled differently, or the signature
+//	              bytes spelled differently
+//
+// Every signature value exists once (sigBytes): Vi, Vi~r, Vi:corrupt and
+// Vj:key=Vi all derive from the one signature of Vi over the certified id, and
+// Vi:otherid is the one signature of Vi over the other id, the very bytes the
+// histories (hist.go) present as Vi's honest vote for that other id.
 //
 // An entry "helps" in the sense of the statement iff it is a valid signature
-// over the certified id under a key that hashes to the entry's address: only
-// the first three forms (first two for members).
+// over the certified id under a key that hashes to the entry's address: the
+// forms Vi, Vi#k, Vi~r (and X, for a member of the set).
 type entry struct {
 	tok   string
 	addr  string // symbolic name of the claimed address
@@ -50,7 +62,161 @@ type entry struct {
 var (
 	sigMu   sync.Mutex
 	sigMemo = map[string]*entry{}
+	rawMemo = map[string][]byte{}
 )
+
+// sigBytes is the k-th signature of `name` over msg (k=0: the one every derived
+// entry form shares). The signer is randomised, so k>0 gives other bytes of the
+// same signer over the same message. Caller holds sigMu.
+func sigBytes(name string, msg []byte, k int) []byte {
+	key := fmt.Sprintf("%s|%x|%d", name, msg, k)
+	if s, ok := rawMemo[key]; ok {
+		return s
+	}
+	var sig []byte
+	for try := 0; ; try++ {
+		sig = rawSign(name, msg)
+		dup := false
+		for j := 0; j < k; j++ {
+			if string(sigBytes(name, msg, j)) == string(sig) {
+				dup = true
+			}
+		}
+		// a deterministic signer cannot give other bytes; an identical copy is still a repeat
+		if !dup || try > 8 {
+			break
+		}
+	}
+	if !indepValid(name, sig, msg) {
+		panic(fmt.Sprintf("signature of %s does not verify", name))
+	}
+	rawMemo[key] = sig
+	return sig
+}
+
+// ---------------------------------------------------------------------------
+// re-encodings: the same entry in other bytes
+
+// reencoding rewrites one field of a valid entry without changing what it
+// means: key != nil respells the public-key JSON (x, y = the decimal
+// coordinates), sig != nil respells the signature bytes.
+type reencoding struct {
+	name string
+	key  func(x, y string) string
+	sig  func(sig []byte) ([]byte, error)
+}
+
+// reencodingCandidates is the explicit alphabet. Which of them the real parser /
+// verifier takes for the same key and a valid signature is MEASURED
+// (reencodings()); the others are reported and left out (they are then merely
+// invalid entries, a kind the space holds already).
+var reencodingCandidates = []reencoding{
+	{name: "ws", key: func(x, y string) string { return `{"Curvname": "P-256", "X": ` + x + `, "Y": ` + y + `}` }},
+	{name: "order", key: func(x, y string) string { return `{"Y":` + y + `,"X":` + x + `,"Curvname":"P-256"}` }},
+	{name: "case", key: func(x, y string) string { return `{"curvname":"P-256","x":` + x + `,"y":` + y + `}` }},
+	{name: "extra", key: func(x, y string) string { return `{"Curvname":"P-256","X":` + x + `,"Y":` + y + `,"Z":0}` }},
+	{name: "nl", key: func(x, y string) string { return `{"Curvname":"P-256","X":` + x + `,"Y":` + y + "}\n" }},
+	{name: "esc", key: func(x, y string) string { return `{"Curvname":"P\u002d256","X":` + x + `,"Y":` + y + `}` }},
+	{name: "dup", key: func(x, y string) string { return `{"Curvname":"P-256","X":0,"X":` + x + `,"Y":` + y + `}` }},
+	{name: "exp", key: func(x, y string) string { return `{"Curvname":"P-256","X":` + x + `e0,"Y":` + y + `e0}` }},
+	{name: "frac", key: func(x, y string) string { return `{"Curvname":"P-256","X":` + x + `.0,"Y":` + y + `.0}` }},
+	{name: "quoted", key: func(x, y string) string { return `{"Curvname":"P-256","X":"` + x + `","Y":"` + y + `"}` }},
+	{name: "lead0", key: func(x, y string) string { return `{"Curvname":"P-256","X":0` + x + `,"Y":0` + y + `}` }},
+	{name: "sigtail", sig: func(sig []byte) ([]byte, error) { return append(append([]byte{}, sig...), 0), nil }},
+	{name: "sigflip", sig: func(sig []byte) ([]byte, error) {
+		// (r, s) -> (r, N-s): the other signature value every ECDSA signature implies
+		var rs struct{ R, S *big.Int }
+		if _, err := asn1.Unmarshal(sig, &rs); err != nil {
+			return nil, err
+		}
+		rs.S = new(big.Int).Sub(world.Keys["V1"].Priv.Curve.Params().N, rs.S)
+		return asn1.Marshal(rs)
+	}},
+}
+
+var (
+	reencMeasure  sync.Once
+	reencAccepted []reencoding
+	reencRefused  []string
+)
+
+// reencode applies one re-encoding to the canonical entry of `name`; ok tells
+// whether the crypto client reads the result as the same member's valid
+// signature over the certified id, in bytes other than the canonical entry's.
+// Caller holds sigMu.
+func reencode(name string, r reencoding) (sign *bftpb.QuorumCertSign, ok bool) {
+	k := world.Keys[name]
+	pub, sig := k.PubJSON, sigBytes(name, idCert, 0)
+	if r.key != nil {
+		pub = r.key(k.Priv.PublicKey.X.String(), k.Priv.PublicKey.Y.String())
+	}
+	if r.sig != nil {
+		s, err := r.sig(sig)
+		if err != nil {
+			return nil, false
+		}
+		sig = s
+	}
+	sign = &bftpb.QuorumCertSign{Address: k.Address, PublicKey: pub, Sign: sig}
+	if pub == k.PubJSON && string(sig) == string(sigBytes(name, idCert, 0)) {
+		return sign, false
+	}
+	pk, err := world.Crypto.GetEcdsaPublicKeyFromJsonStr(pub)
+	if err != nil {
+		return sign, false
+	}
+	if a, err := world.Crypto.GetAddressFromPublicKey(pk); err != nil || a != k.Address {
+		return sign, false
+	}
+	v, err := world.Crypto.VerifyECDSA(pk, sig, idCert)
+	return sign, err == nil && v
+}
+
+// reencodings measures which candidates the real key parser / verifier accept
+// (for every validator key alike) and returns them in candidate order.
+func reencodings() (accepted []reencoding, refused []string) {
+	reencMeasure.Do(func() {
+		sigMu.Lock()
+		defer sigMu.Unlock()
+		for _, r := range reencodingCandidates {
+			all := true
+			for i := 1; i <= 10; i++ {
+				if _, ok := reencode(vname(i), r); !ok {
+					all = false
+				}
+			}
+			if all {
+				reencAccepted = append(reencAccepted, r)
+			} else {
+				reencRefused = append(reencRefused, r.name)
+			}
+		}
+	})
+	return reencAccepted, reencRefused
+}
+
+func reencodingNames() []string {
+	acc, _ := reencodings()
+	out := make([]string, len(acc))
+	for i, r := range acc {
+		out[i] = r.name
+	}
+	return out
+}
+
+// reencodesKey tells whether token t is a re-encoding of the public-key text.
+func reencodesKey(t string) bool {
+	i := strings.Index(t, "~")
+	if i < 0 {
+		return false
+	}
+	for _, r := range reencodingCandidates {
+		if r.name == t[i+1:] {
+			return r.key != nil
+		}
+	}
+	return false
+}
 
 func rawSign(name string, msg []byte) []byte {
 	k := world.Keys[name]
@@ -90,7 +256,7 @@ func parseEntry(tok string) (*entry, error) {
 
 func buildEntry(tok string) (*entry, error) {
 	name, mod := tok, ""
-	if i := strings.IndexAny(tok, ":#"); i >= 0 {
+	if i := strings.IndexAny(tok, ":#~"); i >= 0 {
 		name, mod = tok[:i], tok[i:]
 	}
 	if _, ok := world.Keys[name]; !ok {
@@ -99,43 +265,36 @@ func buildEntry(tok string) (*entry, error) {
 	e := &entry{tok: tok, addr: name}
 	switch {
 	case mod == "":
-		sig := rawSign(name, idCert)
-		if !indepValid(name, sig, idCert) {
-			return nil, fmt.Errorf("fresh signature of %s does not verify", name)
-		}
 		e.valid = true
-		e.sign = mkSign(name, name, sig)
+		e.sign = mkSign(name, name, sigBytes(name, idCert, 0))
 	case strings.HasPrefix(mod, "#"):
-		if _, err := strconv.Atoi(mod[1:]); err != nil {
+		k, err := strconv.Atoi(mod[1:])
+		if err != nil || k < 1 {
 			return nil, fmt.Errorf("bad token %q", tok)
 		}
-		var sig []byte
-		for try := 0; ; try++ {
-			sig = rawSign(name, idCert)
-			dup := false
-			for _, o := range sigMemo {
-				if o.addr == name && o.valid && string(o.sign.Sign) == string(sig) {
-					dup = true
-				}
-			}
-			if !dup {
-				break
-			}
-			if try > 8 {
-				// deterministic signer: a fresh signature cannot differ; an identical copy is still a repeat
-				break
+		e.valid = true
+		e.sign = mkSign(name, name, sigBytes(name, idCert, k))
+	case strings.HasPrefix(mod, "~"):
+		var sign *bftpb.QuorumCertSign
+		ok := false
+		for _, r := range reencodingCandidates {
+			if r.name == mod[1:] {
+				sign, ok = reencode(name, r)
 			}
 		}
+		if !ok {
+			return nil, fmt.Errorf("token %q: not a re-encoding the crypto client reads as %s's valid signature", tok, name)
+		}
 		e.valid = true
-		e.sign = mkSign(name, name, sig)
+		e.sign = sign
 	case mod == ":otherid":
-		sig := rawSign(name, idProp)
+		sig := sigBytes(name, idProp, 0)
 		if indepValid(name, sig, idCert) {
 			return nil, fmt.Errorf("signature over another id verifies over the certified id")
 		}
 		e.sign = mkSign(name, name, sig)
 	case mod == ":corrupt":
-		base := rawSign(name, idCert)
+		base := sigBytes(name, idCert, 0)
 		var sig []byte
 		for bit := 0; bit < 8*len(base); bit++ {
 			sig = append([]byte{}, base...)
@@ -152,8 +311,7 @@ func buildEntry(tok string) (*entry, error) {
 		if _, ok := world.Keys[kn]; !ok || kn == name {
 			return nil, fmt.Errorf("bad key identity in token %q", tok)
 		}
-		sig := rawSign(kn, idCert)
-		e.sign = mkSign(name, kn, sig)
+		e.sign = mkSign(name, kn, sigBytes(kn, idCert, 0))
 	default:
 		return nil, fmt.Errorf("bad token %q", tok)
 	}
